@@ -213,6 +213,9 @@ impl Embeddings {
             Embedding::new(2f64.powi(-40), [0.0; 3]),
             // anchor offset by about one to three box widths (anchor arithmetic that is only right at the origin or far from it)
             Embedding::new(1.0, [1.25 * inp.g[0] as f64, -2.5 * inp.g[1] as f64, 0.75 * inp.g[2] as f64]),
+            // box a million widths from the origin, along a direction that diagonal bisectors are orthogonal to: their offsets
+            // n.p cancel although |n|.|p| is large (error bounds of the float filter must come from the magnitudes)
+            Embedding::new(1.0, [1e6, -1e6, 1e6]),
         ];
         if tier == "thorough" {
             v.push(Embedding::new(1e-9, [0.0; 3]));
@@ -221,14 +224,12 @@ impl Embeddings {
             v.push(Embedding::new(1e-6, [0.0, 1e-3, -1e-3]));
             v.push(Embedding::new(1e6, [-1e6, 0.0, 5e5]));
             v.push(Embedding::new(big, [0.0; 3]));
-            v.push(Embedding::new(1.0, [1e6, -1e6, 1e6]));
             v.push(Embedding::new(1.0 / 3.0, [1.0 / 7.0, 0.3, -0.9]));
         } else {
             // rotate one extra embedding per input so that the quick tier still sees variety
             let extra = [
                 Embedding::new(1e-6, [0.0, 1e-3, -1e-3]),
                 Embedding::new(1e6, [-1e6, 0.0, 5e5]),
-                Embedding::new(1.0, [1e6, -1e6, 1e6]),
                 Embedding::new(1.0 / 3.0, [1.0 / 7.0, 0.3, -0.9]),
                 Embedding::new(1e-9, [0.0; 3]),
                 Embedding::new(big, [0.0; 3]),
